@@ -20,7 +20,6 @@ import (
 	"errors"
 	"fmt"
 	"io"
-	"maps"
 	"math"
 	"net/http"
 	"net/textproto"
@@ -387,7 +386,11 @@ func grpcAddResponseMeta(contentTypePrefix string, meta responseMeta, headers ht
 }
 
 func grpcWriteEndToTrailers(respEnd *responseEnd, trailers http.Header) {
-	maps.Copy(trailers, respEnd.trailers)
+	for key, vals := range respEnd.trailers {
+		// (add, not replace: in a trailers-only response the target already holds the
+		// response headers, which may use the same key)
+		trailers[key] = append(trailers[key], vals...)
+	}
 	if respEnd.err == nil {
 		trailers.Set("Grpc-Status", "0")
 		trailers.Set("Grpc-Message", "")
